@@ -83,7 +83,7 @@ CLAIMED = {
         "technique": "Coq proof (loop invariants over a model of keywordsearches.py) + differential correspondence",
     },
     "C04": {
-        "text": ("10 theorems (Coq, no axioms) over a model of Processor._delete_nodes (after the repairs 17f9ea8 and "
+        "text": ("14 theorems (Coq, no axioms) over a model of Processor._delete_nodes (after the repairs 17f9ea8 and "
                  "1c243db) acting on the coordinates the read side gathered (parents addressed by object identity; "
                  "Collector results flattened, the root refused before anything is deleted, one entry per (parent, "
                  "parentref) place, list elements by descending position, dict / list / set branches): "
@@ -100,7 +100,9 @@ CLAIMED = {
                  "C04_delete_end_to_end_full discharges that hypothesis from C02 (C04_gathered_located: every gathered "
                  "coordinate is the root coordinate or locates a node) for every path of the C01 fragment without "
                  "slice segments: the delete is refused with the document unchanged when the root was matched and "
-                 "otherwise removes exactly the gathered nodes - negative indexes, anchors, duplicates, disorder included."),
+                 "otherwise removes exactly the gathered nodes - negative indexes, anchors, duplicates, disorder included.  "
+                 "An Array slice that selects nothing deletes nothing (C04_empty_slice_deletes_nothing, "
+                 "C04_empty_slice_end_to_end; before the repair f20b613 a[2:1] removed a[2])."),
         "design_ref": "DESIGN.md section 4 (C04), docs/C04.md",
         "note": NOTE_COMMON + "  The matched coordinates are an input of this model (obtained from the real Processor); the read side is C01/C02.",
         "technique": "Coq proof (reverse-order index lemmas over an identity-addressed document model) + differential correspondence",
@@ -287,7 +289,7 @@ CLAIMED = {
         "technique": "Coq proof (structural induction over both trees; keyed-join lemma modulo Python key equality) + differential correspondence",
     },
     "C03": {
-        "text": ("35 theorems (Coq, no axioms) over a model of set_value / _apply_change / _update_node with its "
+        "text": ("38 theorems (Coq, no axioms) over a model of set_value / _apply_change / _update_node with its "
                  "whole-document identity-driven recursion and Nodes.make_new_node / wrap_type: the recursion "
                  "equals a pointwise substitution at the addressed position plus true aliases - as mapping values, "
                  "sequence elements and (since the repair 7612ed9) mapping KEYS (C03_set_exact, frame and pointwise "
@@ -306,7 +308,10 @@ CLAIMED = {
                  "and is one object) and, per Delete, that every coordinate locates a node.  End to end with the "
                  "evaluator model (C03_set_end_to_end, C03_history_end_to_end_inv: the coordinates of every step "
                  "are the locations of the nodes the path semantics selects there; guards inherited from C01 / C02 "
-                 "and, for a Create step, a bound of the model's identity counter).  Tie: "
+                 "and, for a Create step, a bound of the model's identity counter).  An Array slice that selects "
+                 "nothing (a[5:9], a[2:1]; since the repair f20b613) is gathered as an empty virtual list and changes "
+                 "nothing, under either mustexist (C03_empty_slice_changes_nothing, C03_empty_slice_end_to_end; formerly a "
+                 "bare IndexError, or the element at the start of the slice replaced).  Tie: "
                  "histories of length <= 4 (quick) / 6 (thorough) step by step against the real code, with a "
                  "ruamel dump and strict reload after every step, plus a structured stream for aliases used as keys; "
                  "every step a second time with the coordinates gathered by the evaluator model instead of the real read side."),
